@@ -26,11 +26,11 @@ REQUIRED = ["eval:id_star", "C07:estimands-evaluated", "C07:estimands-correct", 
 TIMEOUT = {"quick": 900, "thorough": 7200}
 
 
-def run_case(ctx, gd, ev, cls, g=None):
+def run_case(ctx, gd, ev, cls, g=None, cards=None):
     from y0.algorithm.identify import id_star
 
     g = gg.to_nx(gd) if g is None else g
-    kernel.LOG.reset_case({"graph": gd, "event": ev})
+    kernel.LOG.reset_case({"graph": gd, "event": ev, **({"cards": cards} if cards else {})})
     res = None
     try:
         res = id_star(g, gev.to_event(ev))
@@ -70,6 +70,17 @@ def run_shard(ctx):
                     run_case(ctx, gd, ev, cls, g=g)
             if len(gd["nodes"]) < 5:
                 gd = gg.edit_inplace(g, gd, rng)
+    # wide graphs: the event lives on a small core, the graph has 10..14 (sometimes 64) nodes whose padding is constant
+    # in the exact models
+    for i in range(ctx.share({"quick": 600, "thorough": 8000}[ctx.tier])):
+        core = gg.random_admg(rng, rng.choice([2, 3, 3, 4]))
+        ev, cls = gev.random_event(rng, core)
+        if not ev or cls == "contradictory_pair":
+            continue
+        total = 64 if i % 12 == 0 else rng.randint(10, 14)
+        gd, pad = gg.embed_wide(core, rng, total, **({"p_di": 0.02, "p_bi": 0.01} if total == 64 else {}))
+        classes["wide:" + cls] = classes.get("wide:" + cls, 0) + 1
+        run_case(ctx, gd, ev, cls, cards={w: 1 for w in pad})
     ctx.extras["event_classes"] = classes
 
 
@@ -83,7 +94,7 @@ def replay(case):
 
     gd = case["graph"]
     gd = {"nodes": gd["nodes"], "di": gd["di"], "bi": gd["bi"]}
-    run_case(_C(), gd, [[c[0], [list(w) for w in c[1]], c[2]] for c in case["event"]], "replay")
+    run_case(_C(), gd, [[c[0], [list(w) for w in c[1]], c[2]] for c in case["event"]], "replay", cards=case.get("cards"))
 
 
 def install_for_suite():
